@@ -111,6 +111,14 @@ CLAIMED = {
    "in all mode nothing is visible unless the crash came after the commit. Checked after the re-run: exit 0, every statement's row exists exactly once (none mode: only the statement in flight at the crash may exist twice), all revisions complete.",
    "Crash points are the instrumented ones; a crash inside SQLite's own commit is SQLite's guarantee. The init statement is CREATE TABLE IF NOT EXISTS so that re-executing the in-flight statement in none mode is possible at all. The stale advisory lock file a killed process leaves in TMPDIR is removed before the re-run (lock handling is not part of the property).",
    "4/C10"),
+ "C13": ("exploration",
+   "enumeration of (directory shape x failing-statement position x tx-mode x directives x count x dry-run) + rapid PBT, on the real CLI; oracle = documented post-state per transaction mode compared with an independent dump of the SQLite file; metamorphic fix-and-rerun == failure-free run",
+   "`atlas migrate apply` runs on SQLite files for every listed configuration with a failing statement at every position (or none). The database is read by an independent connection (journal rows in insertion order, revision rows version/applied/total/error, schema objects). "
+   "Checked: file mode = state after the last completely applied file, all mode = state before the command, none mode = exactly the successful prefix recorded with its error; per-file atlas:txmode directives follow the file's own mode; exit status matches; "
+   "a --dry-run on the fresh database and on the database after the run changes nothing; after fixing the file and re-hashing, the re-run ends in the state of a failure-free run. `atlas schema apply` (default mode) on populated tables with plans engineered to succeed first and fail later on the data "
+   "must leave the full data dump (schema text, rows, rowids) unchanged, with --auto-approve and with --dry-run.",
+   "Timestamps, durations and file hashes of revision rows are masked; an absent revision table equals an empty one except in the strict dry-run comparison. SQLite only (transactional DDL).",
+   "4/C13"),
 }
 PENDING_REASON = "check not built yet in this session (planned in DESIGN.md section 4; will be claimed once its quick check is green and sensitivity-tested)"
 
